@@ -127,9 +127,9 @@ theorem blocks_add [AddLaws S] (F : List S → List S) (G : Nat)
 
 /-! ### `expand_conv` backward -/
 
-theorem vjp_lin_expand [AddLaws S] [MulLaws S] (a self : Tensor S) (f0 : Bool) (B : List Nat) (w f rC cC : Nat)
+theorem vjp_lin_expand [AddLaws S] [MulLaws S] [CommLaws S] (a self : Tensor S) (f0 : Bool) (B : List Nat) (w f rC cC : Nat)
     (hda : a.dims = B ++ [w, f]) (hwa : a.WF) (hrc : rC * cC = w) (hr : 1 ≤ rC) (hcc : 1 ≤ cC) :
-    VjpLin (vjp .expand [a] self) [f0] (B ++ [f, rC, cC]) [a.dims] := by
+    VjpLinear (vjp .expand [a] self) [f0] (B ++ [f, rC, cC]) [a.dims] := by
   have hposA : ∀ d ∈ B ++ [w, f], 1 ≤ d := by rw [← hda]; exact hwa.1
   have hw : 1 ≤ w := hposA w (by simp)
   have hf : 1 ≤ f := hposA f (by simp)
@@ -141,7 +141,7 @@ theorem vjp_lin_expand [AddLaws S] [MulLaws S] (a self : Tensor S) (f0 : Bool) (
   refine vjpLin_unary (fun x => expandConvBack x a.dims) (fun x => rfl) ?_
   refine ⟨a.dims, fun x => ⟨a.dims, (List.range (prod a.dims)).map (fun o =>
       x.vals.getD (o / (w * f) * (w * f) + (o % (w * f) % f) * w + o % (w * f) / f) zero)⟩,
-    hwa.1, hwa.1, Fits_self _, ?_, ?_⟩
+    hwa.1, hwa.1, Fits_self _, ?_, ?_, ?_⟩
   · intro x hx
     refine ⟨?_, rfl, by simp⟩
     unfold expandConvBack
@@ -173,6 +173,12 @@ theorem vjp_lin_expand [AddLaws S] [MulLaws S] (a self : Tensor S) (f0 : Bool) (
     apply List.map_congr_left
     intro o _
     exact coord_zipWith_add _ x.vals y.vals (by rw [hx.2, hy.2])
+  · intro α x _
+    simp only [tsmul, List.map_map]
+    congr 1
+    apply List.map_congr_left
+    intro o _
+    exact tsmul_getD α x _
 where
   mk?_ok'' (d : List Nat) (v : List S) (hpos : ∀ x ∈ d, 1 ≤ x) (hlen : prod d = v.length) :
       Tensor.mk? d v = .ok ⟨d, v⟩ := by
@@ -237,6 +243,31 @@ theorem rollPure_add [AddLaws S] (idx : Nat → Nat) : ∀ (u v : List S) (q : N
     rw [hstep]
     exact rollPure_add idx u v (q + 1) _ _ (by simpa using h) (by simp [ho])
 
+theorem rollPure_smul [AddLaws S] [MulLaws S] [CommLaws S] (α : S) (idx : Nat → Nat) : ∀ (u : List S) (q : Nat) (o : List S),
+    rollPure idx (u.map (α * ·)) q (o.map (α * ·)) = (rollPure idx u q o).map (α * ·)
+  | [], _, _ => rfl
+  | a :: u, q, o => by
+    simp only [List.map_cons, rollPure]
+    have hstep : (o.map (α * ·)).set (idx q) ((o.map (α * ·)).getD (idx q) zero + α * a)
+        = (o.set (idx q) (o.getD (idx q) zero + a)).map (α * ·) := by
+      have hc : (o.map (α * ·)).getD (idx q) zero = α * o.getD (idx q) zero :=
+        coord_smul α (CommLaws.mul_zero α) (idx q) o
+      rw [hc, ← MulLaws.left_distrib, List.map_set]
+    rw [hstep]
+    exact rollPure_smul α idx u (q + 1) _
+
+/-- block-wise homogeneity lifts to the whole buffer -/
+theorem blocks_smul (α : S) (F : List S → List S) (G : Nat)
+    (hF : ∀ u : List S, F (u.map (α * ·)) = (F u).map (α * ·)) (xv : List S) (P : Nat) :
+    ((List.range P).map (fun n => F (((xv.map (α * ·)).drop (n * G)).take G))).flatten
+      = (((List.range P).map (fun n => F ((xv.drop (n * G)).take G))).flatten).map (α * ·) := by
+  rw [List.map_flatten, List.map_map]
+  congr 1
+  apply List.map_congr_left
+  intro n _
+  simp only [Function.comp]
+  rw [← List.map_drop, ← List.map_take, hF]
+
 /-- every target position of `roll_blocks` lies inside the image -/
 theorem rollIdx_lt (D R C sr sc fr fc q : Nat) (hfr : fr ≤ R) (hfc : fc ≤ C) (hfr1 : 1 ≤ fr) (hfc1 : 1 ≤ fc) (hD : 1 ≤ D)
     (hq : q < (((R - fr) / sr + 1) * ((C - fc) / sc + 1)) * (fr * fc) * D) :
@@ -268,10 +299,10 @@ theorem rollIdx_lt (D R C sr sc fr fc q : Nat) (hfr : fr ≤ R) (hfc : fc ≤ C)
           + R * (q % (fr * fc * D) / (fr * fc))) := by ring
   rw [e]; exact this
 
-theorem vjp_lin_unroll [AddLaws S] [MulLaws S] (a self : Tensor S) (f0 : Bool) (B : List Nat)
+theorem vjp_lin_unroll [AddLaws S] [MulLaws S] [CommLaws S] (a self : Tensor S) (f0 : Bool) (B : List Nat)
     (D R C sr sc fr fc : Nat) (hda : a.dims = B ++ [D, R, C]) (hwa : a.WF)
     (hfr : fr ≤ R) (hfc : fc ≤ C) (hfr1 : 1 ≤ fr) (hfc1 : 1 ≤ fc) (hsr : 1 ≤ sr) (hsc : 1 ≤ sc) :
-    VjpLin (vjp (.unroll D R C sr sc fr fc) [a] self) [f0]
+    VjpLinear (vjp (.unroll D R C sr sc fr fc) [a] self) [f0]
       (B ++ [((R - fr) / sr + 1) * ((C - fc) / sc + 1), D * (fr * fc)]) [a.dims] := by
   have hposA : ∀ d ∈ B ++ [D, R, C], 1 ≤ d := by rw [← hda]; exact hwa.1
   have hposB : ∀ d ∈ B, 1 ≤ d := fun d hd => hposA d (by simp [hd])
@@ -302,7 +333,7 @@ theorem vjp_lin_unroll [AddLaws S] [MulLaws S] (a self : Tensor S) (f0 : Bool) (
   refine vjpLin_when1 (fun x => rollBlocks x D R C sr sc fr fc true) (fun x => rfl) (fun _ => ?_)
   refine ⟨a.dims, fun x => ⟨a.dims, ((List.range (prod B)).map (fun n =>
       F ((x.vals.drop (n * prod [count, D * (fr * fc)])).take (prod [count, D * (fr * fc)])))).flatten⟩,
-    hwa.1, hwa.1, Fits_self _, ?_, ?_⟩
+    hwa.1, hwa.1, Fits_self _, ?_, ?_, ?_⟩
   · intro x hx
     have hrun : rollBlocks x D R C sr sc fr fc true = .ok ⟨a.dims, ((List.range (prod B)).map (fun n =>
         F ((x.vals.drop (n * prod [count, D * (fr * fc)])).take (prod [count, D * (fr * fc)])))).flatten⟩ := by
@@ -344,5 +375,16 @@ theorem vjp_lin_unroll [AddLaws S] [MulLaws S] (a self : Tensor S) (f0 : Bool) (
       exact rollPure_add _ _ _ 0 _ _ (by simp [hu, hv]) rfl
     · intro u v _ _
       simp [F, rollPure_length]
+  · intro α x _
+    simp only [tsmul]
+    congr 1
+    refine blocks_smul α F (prod [count, D * (fr * fc)]) ?_ x.vals (prod B)
+    intro u
+    simp only [F]
+    rw [← List.map_take]
+    have hz : (List.replicate (D * R * C) zero : List S) = (List.replicate (D * R * C) zero).map (α * ·) := by
+      simp [CommLaws.mul_zero]
+    conv => lhs; rw [hz]
+    exact rollPure_smul α _ _ 0 _
 
 end Corgi
